@@ -20,6 +20,8 @@ import Barril.Gen.ThmReg14uPosc
 import Barril.Gen.ThmReg14cPosc
 import Barril.Gen.ThmReg14uSimple
 import Barril.Gen.ThmReg14cSimple
+import Barril.Proofs.CtorLemmas
+import Barril.Gen.ThmDefcatPosc
 
 namespace Barril.Reg
 open Barril
@@ -140,6 +142,15 @@ theorem every_unit_builds_scalar (ops : List RegOp) {c : Sym} {ci : CatRow} {l :
 table theorems are re-proved by `decide +kernel` whenever /repo changes) -/
 theorem posc_RegInv : DbRegInv Gen.poscDb :=
   dbRegInv_of_all Gen.poscUnits_all_reg14u Gen.poscCats_all_reg14c
+
+/-- **every unit of the shipped POSC database can be used to build a Scalar without naming a
+category**: its default category — its own `default_category` entry, else its quantity type's
+name — is a registered category of the unit's OWN quantity type (per-row predicate
+`UnitRow.defaultCatOk`, generated table theorem `poscUnits_all_defcat`) -/
+theorem posc_units_default_category_of_own_type :
+    ∀ w ∈ Gen.poscDb.units, ∃ c ci, Ctor.rowDefaultCategory Gen.poscDb w = some c ∧ c ≠ 0
+      ∧ Gen.poscDb.catByName c = some ci ∧ ci.qtype = w.qtype :=
+  fun w hw => Ctor.defaultCatOk_spec (List.all_eq_true.mp Gen.poscUnits_all_defcat w hw)
 
 /-- … and so does the database built by `FillSimple` -/
 theorem simple_RegInv : DbRegInv Gen.simpleDb :=
